@@ -1,6 +1,6 @@
 (* Lemmas about RelEdit.v (C11), part 1: lists, paths, texts, and the pure parts of the
    editing operations on the trees the constructors build. *)
-From V.model Require Import Base RelLex RelParse RelEdit RelEditSpec.
+From V.model Require Import Base RelLex RelParse RelEdit RelEditSpec RelEditTree.
 From V.proofs Require Import BaseP.
 Set Default Timeout 60.
 
@@ -387,19 +387,6 @@ Proof.
 Qed.
 
 (* ------------------------------------------------------------------ Entry::remove, as a list function *)
-Definition entry_remove_cs (v : variant) (cs : list rtree) (i : nat) : res (list rtree) :=
-  let pre := firstn i cs in
-  let post := skipn (S i) cs in
-  let is_first := negb (existsb (fun c => is_entry c || (fx_first_substvar v && node_is SUBSTVAR c)) pre) in
-  match entry_remove_scan_next post with
-  | Ok (k1, rc) =>
-      if is_first then Ok (pre ++ skipn (ws_prefix_len (skipn k1 post)) (skipn k1 post))
-      else Ok (firstn (i - entry_remove_scan_prev rc pre) pre ++ skipn k1 post)
-  | Panic n => Panic n
-  | Err e => Err e
-  | OutOfFuel => OutOfFuel
-  end.
-
 Lemma sepE_head_cases b : Forall entryish b ->
   (b = [] /\ entry_remove_scan_next (sepE b) = Ok (0, false)) \/
   (exists y b', b = y :: b' /\ entryish y /\ entry_remove_scan_next (sepE b) = Ok (1, true) /\
@@ -694,18 +681,6 @@ Proof.
 Qed.
 
 (* ------------------------------------------------------------------ Relation::remove, as a list function *)
-Definition relation_remove_cs (cs : list rtree) (i : nat) : res (list rtree) :=
-  let pre := firstn i cs in
-  let post := skipn (S i) cs in
-  if negb (existsb is_relation pre) then
-    match relation_remove_scan_next post with
-    | Ok k => Ok (pre ++ skipn k post)
-    | Panic n => Panic n
-    | Err e => Err e
-    | OutOfFuel => OutOfFuel
-    end
-  else Ok (firstn (i - relation_remove_scan_prev pre) pre ++ post).
-
 Lemma existsb_preR a : Forall relationish a -> a <> [] -> existsb is_relation (preR a) = true.
 Proof.
   intros H Hne. destruct H as [|y r Hy Hr]; [congruence|].
